@@ -6,7 +6,10 @@ subprocess.run(["python3", R + "/tools/mkstatus.py"], stdout=subprocess.DEVNULL)
 d = open(R + "/DESIGN.md").read()
 k = d.find("\n## 11. As built")
 if k >= 0:
-    d = d[:k].rstrip() + "\n"
+    d = d[:k].rstrip()
+    while d.endswith("-" * 20):
+        d = d.rstrip("-").rstrip()
+    d += "\n"
 prose = open(R + "/notes/DESIGN11_prose.md").read()
 status = open(R + "/STATUS.md").read().split("\n", 2)[2]
 log = subprocess.run(["git", "-C", "/repo", "log", "--reverse", "--format=%h %s", "5effd8a..HEAD"], capture_output=True, text=True).stdout.strip().split("\n")
